@@ -24,9 +24,9 @@ for p in props:
     print("| %s%s | %s | %s | %s | %s | %s |" % (pid, "" if pid in claimed else " (pending)", verdict, cov.get("obligations", "?"),
           "; ".join(opens) or "—", "; ".join(fixed) or "—", cov.get("evaluations", "?")))
 print()
-print("| seeded change | property | what it needs to manifest | caught | concrete failing input |")
-print("|---|---|---|---|---|")
-for d in sorted(glob.glob(os.path.join(V, "seeded", "*"))):
+print("| seeded change | property | what it needs to manifest | still a violation at final /repo HEAD | caught | concrete failing input |")
+print("|---|---|---|---|---|---|")
+for d in sorted(glob.glob(os.path.join(V, "seeded", "C*"))):
     sid = os.path.basename(d)
     try:
         meta = json.load(open(os.path.join(d, "meta.json")))
@@ -39,4 +39,5 @@ for d in sorted(glob.glob(os.path.join(V, "seeded", "*"))):
             res = json.load(open(rp))
             break
     need = (meta.get("needs_to_manifest") or "")[:160].replace("|", "/").replace("\n", " ")
-    print("| %s | %s | %s | %s | %s |" % (sid, meta.get("property"), need, res.get("caught", "not run"), res.get("found_failing_input", "")))
+    st = (meta.get("status_at_head") or {}).get("status", "?")
+    print("| %s | %s | %s | %s | %s | %s |" % (sid, meta.get("property"), need, st, res.get("caught", "not run"), res.get("found_failing_input", "")))
